@@ -13,7 +13,7 @@ from . import c05_cache as c05
 ID = 'C06'
 LEVEL = 'exploration'
 RULE = ('Same executor and generator as C05 plus HINFO and unknown-type records, 1-4 spy listeners, and ops that add/remove '
-        'listeners between datagrams or from inside the first/second callback. Per datagram the oracle derives from CacheModel: the '
+        'listeners between datagrams or from inside the first/second callback, or register an already registered listener again (with or without a question). Per datagram the oracle derives from CacheModel: the '
         '(new, previous) pairs in datagram order, previous being the very object the cache held; exactly one update and one '
         'complete call per listener registered throughout; cache state visible in the first call (nothing added or removed yet, '
         'refreshed TTLs and flush marks visible) and in the second call/afterwards (model after the datagram: created == arrival '
@@ -29,6 +29,7 @@ BUDGET = {'quick': {'examples': 5000}, 'thorough': {'examples': 15000, 'shards':
 listener_op = st.one_of(
     st.just(['add_listener']),
     st.integers(0, 5).map(lambda k: ['remove_listener', k]),
+    st.tuples(st.integers(0, 5), st.integers(0, 6)).map(lambda t: ['readd_listener', t[0], t[1]]),
     st.tuples(st.integers(0, 5), st.sampled_from(['first', 'second']), st.sampled_from(['remove', 'add']),
               st.integers(0, 5)).map(lambda t: ['arm', t[0], t[1], t[2], t[3]]),
 )
@@ -58,7 +59,7 @@ def check(case: Dict[str, Any]) -> Dict[str, Any]:
         raise mine[0]
     s = run.stats
     classes = [k for k in ('refresh', 'new', 'goodbye_cached', 'flush_marked', 'repeat_in_dgram', 'multi_kind_dgram',
-                           'boundary_flush', 'listener_mutation', 'exact_1000') if s.get(k)]
+                           'boundary_flush', 'listener_mutation', 'listener_readded', 'exact_1000') if s.get(k)]
     if case['listeners'] > 1:
         classes.append('multi-listener')
     return {'nontrivial': bool(s['multi_kind_dgram'] or s['boundary_flush']), 'classes': classes,
